@@ -275,7 +275,7 @@ def _ej(prop, depth, refresh=3, retry=2, expire=600, cache_ver=1, extra=()):
 
 def c05_jobs(tier, repo):
     _EJ_TIER[0] = tier
-    d = 9 if tier == "quick" else 13
+    d = 9 if tier == "quick" else 20  # thorough: level by level up to the deadline
     jobs = [_ej("C05", d, 3, 2, 600, 1), _ej("C05", d, 1, 1, 600, 1), _ej("C05", d, 3, 2, 600, 0),
             _ej("C05", d + 2, 3, 2, 8, 1), _ej("C05", d + 2, 2, 1, 5, 0)]
     if tier == "thorough":  # more interval settings, more publications / stop requests per conversation
@@ -299,7 +299,7 @@ def c07_jobs(tier, repo):
 
 def c08_jobs(tier, repo):
     _EJ_TIER[0] = tier
-    d = 8 if tier == "quick" else 12
+    d = 8 if tier == "quick" else 16  # thorough: level by level up to the deadline
     jobs = [_ej("C08", d, 3, 2, 600, 1), _ej("C08", d, 1, 1, 600, 1), _ej("C08", d, 3, 2, 600, 0),
             _ej("C08", d, 3, 2, 8, 1)]
     if tier == "thorough":
